@@ -178,6 +178,50 @@ def run_case(a):
             changed = [p for p in d["created"] + d["deleted"] + d["modified"] + d["touched"] if p != ".write_test"]
             if r3.rc == 0 and changed:
                 viol.append(("C14 rerun-touches-output path=build after-forced-run", "plain re-run after force:true was removed from the configuration changed %s" % {k2: v2 for k2, v2 in d.items() if v2}, wit))
+        # ---- (d) optional outputs left over from an earlier state (dependency-graph.* after visualisation was switched off,
+        #          events.ts after the last emit was removed) are not part of the current output: once the run that follows the
+        #          change has regenerated, further unchanged runs must again rewrite nothing
+        def plain_run(hs, viz=False):
+            if path == "cli":
+                argv = [cli, "tauri-typegen", "generate", "-p", src, "-o", out, "-v", mode] + (["--visualize-deps"] if viz else [])
+                if cfg:
+                    c = {"project_path": src, "output_path": out, "validation_library": mode}
+                    c.update(cfg)
+                    cp = os.path.join(root, "typegen.cfg.json")
+                    json.dump(c, open(cp, "w"))
+                    argv += ["-c", cp]
+                return common.run(argv, cwd=root, hash_seed=hs)
+            extra = {"typeMappings": mappings} if mappings else {}
+            if viz:
+                extra["visualizeDeps"] = True
+            proj.write_tauri_conf(root, "src-tauri", "gen", mode, extra)
+            return proj.build_generate(drv, root, hash_seed=hs)[0]
+
+        for label in ("visualisation-switched-off", "last-emit-removed"):
+            if label == "visualisation-switched-off":
+                ra = plain_run(seed * 7 + 1, viz=True)
+                if ra.rc != 0 or not os.path.exists(os.path.join(out, "dependency-graph.txt")):
+                    continue
+            else:
+                rendered = compound.render(files)
+                if not any(".emit(" in t or ".emit_to(" in t for (_, t) in rendered) or not os.path.exists(os.path.join(out, "events.ts")):
+                    continue
+                common.write_tree(src, [(p2, t.replace(".emit(", ".emit_disabled(").replace(".emit_to(", ".emit_to_disabled(")) for (p2, t) in rendered])
+            rb = plain_run(seed * 7 + 2)            # the run that sees the change: regenerates (or not) as it likes
+            if rb.rc != 0:
+                continue
+            for k in range(2):
+                before = fsmon.snapshot(out)
+                time.sleep(0.002)
+                rc_ = plain_run(seed * 7 + 3 + k)
+                st["second_runs"] += 1
+                st["reruns_with_leftover_optional_output"] = st.get("reruns_with_leftover_optional_output", 0) + 1
+                d = fsmon.diff(before, fsmon.snapshot(out))
+                changed = [p2 for p2 in d["created"] + d["deleted"] + d["modified"] + d["touched"] if p2 != ".write_test"]
+                if rc_.rc == 0 and changed:
+                    viol.append(("C14 rerun-touches-output path=%s leftover=%s" % (path, label),
+                                 "unchanged re-run #%d after %s changed %s (stdout tail %r)" % (k + 1, label, {k2: v2 for k2, v2 in d.items() if v2}, rc_.out.strip()[-60:]), wit))
+                    break
         return {"viol": viol, "st": st, "files": len(files), "mappings": nmap}
     finally:
         common.rmtree(root)
